@@ -128,7 +128,7 @@ func writeEvidence(prop, tier string, seed int, results []*eng.HarnessResult, hs
 		"assumptions": []string{
 			"bounds are those of each harness (universe sizes, loop unwinding checked by unwinding assertions); nothing is claimed outside them",
 			"environment stubs: virtual clock (time.Now moved only by the harness, as in testing/synctest), math/rand outcomes arbitrary, loggers and fmt are no-ops, sync primitives sequential unless the harness is a thread harness",
-			"go/ssa (x/tools v0.50.0) lowering, symgo's instruction semantics (cross-checked by vcheck selftest and native replay of solver-chosen samples), z3 4.8.12 / cvc5 1.0.3",
+			"go/ssa (x/tools v0.50.0) lowering, symgo's instruction semantics (cross-checked by vcheck selftest and native replay of solver-chosen samples), z3 5.1.0 (bit-vectors, Booleans) / cvc5 1.0.3 (floating point)", "models in place of two environment-facing functions where a harness uses them: record.ConsumeEnvelope (tagged test envelopes -> outcome classes; natively really signed envelopes) and peerScore.getIPs (addresses of the fake network; natively the real parser on the fake connections' multiaddrs)",
 			"harness oracles and invariants under /verif/harness are written from the property statements",
 		},
 	}
